@@ -50,6 +50,16 @@ NOTES = {
     'C03-f': 'needs the sources=[...] form of with_store (several hot sources, each with its own pipeline, sharing one store): added as a C03 scenario with the protocol monitor on every boundary of every pipeline',
     'C09-f': 'NOT caught, deliberately: emit-before-persist in scan only shows under re-entrant delivery (a subscriber pushing the next item of the same key from inside its own on_next). That breaks the Rx contract that notifications are serialised; no property speaks about it, and the unchanged tree has other operators that are not re-entrant either',
     'C08-f': 'NOT caught, deliberately: needs a mux error raised inside the last tee_map branch that travels THROUGH the tee_map to a handler placed after it. C13 specifies handlers placed directly after the failing operator, C08 says nothing about errors (the unchanged tee_map forwards an upstream error once per branch)',
+    'C01-m': 'needs assert_1 with a pair-sensitive predicate at a lifetime boundary of a reused slot: "previous and current item have the same split key" holds by construction inside split(K) and is generated there as first operator; a value cached across lifetimes makes it fail. Caught by C02 (the lifetime differential) - C01\'s dual-mode programs contain no split',
+    'C02-m': 'the same change as C11-m (elapsed-time form of the expiry test): caught by C11 through unsigned numpy timestamps with clock skew; C02 is rightly silent (a moved window boundary, every lifetime is still a function of its items) and C07 has no out-of-order timestamps',
+    'C03-m': 'needs one slot index reused over time for DIFFERENT key tuples, which the library\'s own group_by never produces: a hand-built, well-formed keyed source (cast_as_mux_observable) was added as a C03 scenario, with the protocol monitor on every boundary',
+    'C08-m': 'needs a subscription with an explicit scheduler and a branch operator that depends on the subscribe-time scheduler: C08 now subscribes some cases with a scheduler and plants an operator that tags each item with the scheduler it was subscribed with; the branch must see what it sees when it runs alone',
+    'C10-m': 'needs a text value and the int equal to its hash in one key (distinct stored hash(key) for text): a key function returning both added',
+    'C11-m': 'needs timestamps for which a - b >= t and a >= b + t disagree: numpy.uint64 timestamps together with the clock-skew fault (a difference of timestamps wraps around) added; float timestamps on a decimal grid are NOT generated (there the two forms differ by rounding and the statement does not say which is meant)',
+    'C13-m': 'needs the same exception object raised for several items (a sentinel error, a failed Future): fault mode "shared" added',
+    'C16-m': 'NOT caught, deliberately: compress starts a new gzip member after 1 GiB of input and decompress reads the first member only. It needs more than 2**30 bytes through one subscription; the simulation stops at a few MiB per stream (a 1 GiB case costs about 10 s and the threshold could as well be 4 GiB)',
+    'C18-m': 'needs an empty row sequence dumped onto a path that already holds an earlier dump (the file was no longer truncated when nothing is written): an earlier, longer dump onto the same path is a generated dimension of C18 and C19 now (the simulated disk knows append mode)',
+    'C19-m': 'needs a file name whose extension suggests another compression than the one given (load_from_file guessed from the name, dump_to_file did not): file names are generated (export.json.gz written without compression, ...)',
     'C03-k': 'needs two store scopes chained on one multiplexed stream (multiplex(pipe(with_store(a, ...), with_store(b, ...)))): added as a C03 scenario (the generated pipeline is cut into two scopes at a seeded position)',
     'C04-k': 'needs a key_mapper that is a callable object with a false truth value: every key function (group_by, split, distinct, distinct_until_changed) is now also generated wrapped in such an object - which showed that the unchanged distinct / distinct_until_changed had exactly this defect (fixed in b9dc046)',
     'C13-k': 'needs the dead-letter observable to be subscribed after the data stream (before the first item): subscription order is a generated dimension of the router cases now',
